@@ -408,6 +408,10 @@ func (sp *specParser) parseUnary() *Expr {
 		sp.next()
 		return &Expr{Kind: EUn, Op: "*", Args: []*Expr{sp.parseUnary()}}
 	}
+	if sp.isOp("&") {
+		sp.next()
+		return &Expr{Kind: EUn, Op: "&", Args: []*Expr{sp.parseUnary()}}
+	}
 	return sp.parsePostfix()
 }
 
